@@ -76,6 +76,17 @@ func (d *datadogMetricsRequestDec) DecodeSeriesItem(dec *jx.Decoder, key string)
 		}))
 		d.path = d.path[:len(d.path)-2]
 		return d.WrapError(err)
+	case "tags":
+		return d.WrapError(d.MaybeArr(dec, func(dec *jx.Decoder) error {
+			val, err := d.MaybeString(dec)
+			if err != nil {
+				return err
+			}
+			if kv := strings.SplitN(val, ":", 2); len(kv) == 2 {
+				d.Labels = append(d.Labels, []string{kv[0], kv[1]})
+			}
+			return nil
+		}))
 	case "points":
 		d.path = append(d.path, "points")
 		tsNs := time.Now().UnixNano()
